@@ -226,3 +226,9 @@ def run(cx, chk):
     check_pair(cx, chk)
     check_rt(cx, chk)
     check_impl(cx, chk)
+    # byte exactness of every measured offset rests on the cursor invariant: start_index and partial_string move by the
+    # same number of BYTES in every constructor / advance (shared rule C04.cursor)
+    from . import c04
+    c04.check_cursor(cx, chk, cx.runtime, "runtime")
+    if "C04.cursor" in chk.rules:
+        chk.rules["C09.cursor"] = chk.rules.pop("C04.cursor")
